@@ -59,8 +59,8 @@ def GEnv.find (g : GEnv) (n : List Char) : Option GEntry := List.find? (fun e =>
 
 /-- An array type written in a parameter or variable declaration is a new type, different from every
     declared type and from the types written in other declarations: its identity is the declaring
-    procedure together with the declared name (no identifier contains a blank). -/
-def anonId (procName varName : List Char) : List Char := procName ++ ' ' :: varName
+    procedure together with the declared name (no identifier contains a dot). -/
+def anonId (procName varName : List Char) : List Char := procName ++ '.' :: varName
 
 /-- Resolve a type expression; `locals` shadow global names (a variable is not a type). -/
 def resolveType (g : GEnv) (locals : List VarInfo) (creator : List Char) : TypeExpr → Option Ty
@@ -76,6 +76,32 @@ def resolveType (g : GEnv) (locals : List VarInfo) (creator : List Char) : TypeE
     | some n, some t => some (.arr n t creator)
     | _, _ => none
   | _ => none
+
+def Ty.isArr : Ty → Bool
+  | .arr .. => true
+  | _ => false
+
+/-- one more parameter declaration of procedure `procName`, after the parameters `acc` -/
+def paramStep (g : GEnv) (procName : List Char) (acc : Option (List VarInfo)) (p : Ref ParamDecl) :
+    Option (List VarInfo) :=
+  match acc, p.val with
+  | some vs, .valid _ isRef (some pn) (some te) _ =>
+    match resolveType g [] (anonId procName pn.value) te.val with
+    | some t =>
+      if vs.any (fun v => v.name == pn.value) || (t.isArr && !isRef) then none
+      else some (vs ++ [⟨pn.value, t, isRef⟩])
+    | none => none
+  | _, _ => none
+
+/-- one more local variable declaration, after the parameters `ps` and the variables `acc` -/
+def localStep (g : GEnv) (procName : List Char) (ps : List VarInfo) (acc : Option (List VarInfo))
+    (v : Ref VarDecl) : Option (List VarInfo) :=
+  match acc, v.val with
+  | some vs, .valid _ (some vn) (some te) _ =>
+    match resolveType g (ps ++ vs) (anonId procName vn.value) te.val with
+    | some t => if (ps ++ vs).any (fun x => x.name == vn.value) then none else some (vs ++ [⟨vn.value, t, false⟩])
+    | none => none
+  | _, _ => none
 
 /-- Declarations, in order: every name is declared once, types are declared before use. -/
 def declare (g : GEnv) : List (Ref GlobalDecl) → Option GEnv
@@ -96,29 +122,10 @@ def declare (g : GEnv) : List (Ref GlobalDecl) → Option GEnv
       | none => none
       | some n =>
         if (g.find n.value).isSome then none else
-        let params : Option (List VarInfo) := pd.params.foldl (fun acc p =>
-          match acc, p.val with
-          | some vs, .valid _ isRef (some pn) (some te) _ =>
-            match resolveType g [] (anonId n.value pn.value) te.val with
-            | some t =>
-              let isArr := match t with
-                | .arr .. => true
-                | _ => false
-              if vs.any (fun v => v.name == pn.value) || (isArr && !isRef) then none
-              else some (vs ++ [⟨pn.value, t, isRef⟩])
-            | none => none
-          | _, _ => none) (some [])
-        match params with
+        match pd.params.foldl (paramStep g n.value) (some []) with
         | none => none
         | some ps =>
-          let locals : Option (List VarInfo) := pd.vars.foldl (fun acc v =>
-            match acc, v.val with
-            | some vs, .valid _ (some vn) (some te) _ =>
-              match resolveType g (ps ++ vs) (anonId n.value vn.value) te.val with
-              | some t => if (ps ++ vs).any (fun x => x.name == vn.value) then none else some (vs ++ [⟨vn.value, t, false⟩])
-              | none => none
-            | _, _ => none) (some [])
-          match locals with
+          match pd.vars.foldl (localStep g n.value ps) (some []) with
           | none => none
           | some ls => declare (g ++ [.proc ⟨n.value, ps, ls⟩]) ds
 
